@@ -247,6 +247,14 @@ func runCompileCase(scratch string, class, cfgName string, file []byte, sets []s
 		}
 	}
 	c.Runs = make([]runJ, len(sets))
+	if class == "race-cdb" {
+		// a data race in the parser can also crash the process: all these compilations are made
+		// by child processes, a run whose child died counts as failed
+		if err := runCDBChildren(scratch, in, sets, want, c.Runs); err != nil {
+			return nil, err
+		}
+		return c, nil
+	}
 	var wg sync.WaitGroup
 	sem := make(chan struct{}, 4)
 	var firstErr error
@@ -470,6 +478,87 @@ func runBuckets(c *bucketCase) {
 var childTimeout = 90 * time.Second
 var hangSeen int32
 
+// cdbChildMain: childcdb:<in>:<outprefix>:<w1,w2,...> compiles in to <outprefix>.<i> with wi workers.
+func cdbChildMain(spec string) {
+	f := strings.Split(spec, ":")
+	for i, ws := range strings.Split(f[3], ",") {
+		var w int
+		fmt.Sscan(ws, &w)
+		if _, err := cdb.CreateCDB(f[1], fmt.Sprintf("%s.%d", f[2], i), &cdb.CreatorOptions{NumCPU: w}); err != nil {
+			fmt.Printf("CDB-ERR %d %v\n", i, err)
+		} else {
+			fmt.Printf("CDB-DONE %d\n", i)
+		}
+	}
+}
+
+// runCDBChildren makes the CDB compilations of sets in child processes (20 per child, 4 children
+// at a time) and compares every file they wrote with the reference.
+func runCDBChildren(scratch, in string, sets []setting, want complib.Dump, runs []runJ) error {
+	exe, err := os.Executable()
+	if err != nil {
+		return err
+	}
+	const per = 30
+	var wg sync.WaitGroup
+	sem := make(chan struct{}, 4)
+	var mu sync.Mutex
+	var firstErr error
+	for lo := 0; lo < len(sets); lo += per {
+		hi := lo + per
+		if hi > len(sets) {
+			hi = len(sets)
+		}
+		wg.Add(1)
+		go func(lo, hi int) {
+			defer wg.Done()
+			sem <- struct{}{}
+			defer func() { <-sem }()
+			prefix := freshDir(scratch)
+			var ws []string
+			for _, s := range sets[lo:hi] {
+				ws = append(ws, fmt.Sprint(s.workers))
+			}
+			ctx, cancel := context.WithTimeout(context.Background(), childTimeout)
+			defer cancel()
+			t0 := time.Now()
+			out, rerr := exec.CommandContext(ctx, exe, "-extra", fmt.Sprintf("childcdb:%s:%s:%s", in, prefix, strings.Join(ws, ","))).CombinedOutput()
+			ms := int(time.Since(t0)/time.Millisecond) / (hi - lo)
+			for i := lo; i < hi; i++ {
+				s := sets[i]
+				r := runJ{Mode: s.mode, Workers: s.workers, Ms: ms}
+				path := fmt.Sprintf("%s.%d", prefix, i-lo)
+				if strings.Contains(string(out), fmt.Sprintf("CDB-DONE %d\n", i-lo)) {
+					d, derr := complib.DumpCDB(path)
+					if derr != nil {
+						mu.Lock()
+						firstErr = derr
+						mu.Unlock()
+					} else {
+						r.Ok = true
+						r.NRec = d.Records()
+						var k []byte
+						r.GoSame, k = complib.SameMultiset(d, want)
+						if !r.GoSame {
+							r.DiffKey = hlib.Ints(k)
+						}
+					}
+				} else {
+					tail := string(out)
+					if len(tail) > 160 {
+						tail = tail[:160]
+					}
+					r.Err = fmt.Sprintf("CRASH or error in child: %v %s", rerr, tail)
+				}
+				os.Remove(path)
+				runs[i] = r
+			}
+		}(lo, hi)
+	}
+	wg.Wait()
+	return firstErr
+}
+
 func childMain(spec string) {
 	// child:<in>:<dir>:<workers>:<bs>:<par>:<v2>
 	f := strings.Split(spec, ":")
@@ -565,6 +654,11 @@ func replay(a *hlib.Args, e *hlib.Emitter, ncpu int) error {
 }
 
 func run(a *hlib.Args, e *hlib.Emitter) error {
+	if strings.HasPrefix(a.Extra, "childcdb:") {
+		log.SetOutput(io.Discard)
+		cdbChildMain(a.Extra)
+		return nil
+	}
 	if strings.HasPrefix(a.Extra, "child:") {
 		childMain(a.Extra)
 		return nil
@@ -709,7 +803,7 @@ func run(a *hlib.Args, e *hlib.Emitter) error {
 			e.Emit(c)
 		}
 		var csets []setting
-		n := 80
+		n := 120
 		if thorough {
 			n = 600
 		}
